@@ -4,6 +4,9 @@ Import ListNotations.
 From Exmex.Model Require Import Base EvalBinary Lexer Flat Deep Convert Calc.
 From Exmex.Spec Require Import RefSem.
 From Exmex.Proofs Require Import DeepSem DeepSubs C11Main DeepOps ConvertCompose FlatCalc.
+From Coq Require Import Reals.
+From Exmex.Gen Require Import Tables.
+From Exmex.Proofs Require Import NormalForm RealCarrier CalcSem.
 Open Scope nat_scope.
 
 (* 1. Binary application by name on DEEP expressions is a homomorphism: for every table, every binary operator name and
@@ -85,8 +88,8 @@ Proof. exact @flat_operate_unary. Qed.
 (* 4. applying an unknown operator name is an error, for every table, data type and operands; applying a name that
    exists but has no unary function is an error too.
    Outside these theorems (covered by the correspondence: histories of applications against the reference interpreter;
-   arithmetic histories against the unsimplified form): the soundness of the neutral-element shortcuts of + - * / pow
-   and the named helper methods built on them. *)
+   arithmetic histories against the unsimplified form): the neutral-element shortcuts on data types other than the reals (5 below
+   proves them over the reals) and the named helper methods built on them. *)
 Theorem C10_unknown_binary_name_is_error_partial :
   forall (D : Type) (C : carrier D) (tb : optable) (a b : deepex D) (name : str),
   find_op name tb 0 = None -> operate_bin C tb a b name = Err E_UNKNOWNOP.
@@ -100,8 +103,43 @@ Theorem C10_not_a_unary_operator_is_error_partial :
   find_op name tb 0 = Some k -> has_un tb k = false -> operate_unary C tb a name = Err E_NOUNARY.
 Proof. intros D C tb a name k H Hu. unfold operate_unary. rewrite H, Hu. reflexivity. Qed.
 
+(* 5. The overloaded arithmetic operators of deep expressions WITH their neutral-element shortcuts (deep.rs:1138-1219:
+   x+0, 0+x, x*1, 1*x, x*0, 0/x, x/1, x^0, x^1, 0^x), over the real numbers with the default table: on expressions in
+   compile normal form whose names lie in their variable lists (W, Proofs/CalcSem.v) each of them, when it succeeds,
+   yields such an expression again, over the sorted union of the variable lists, whose value at every assignment is the
+   real operation applied to the operands' values.  For the power: unless the base is the literal zero, in which case
+   the result is zero (0^y = 0 for every positive y; the theorem says nothing for 0^y with y <= 0).  The soundness of
+   the shortcuts rests on DeepEx::is_num being sound on normal forms (Proofs/NormalForm.v). *)
+Theorem C10_shortcuts_are_sound_over_the_reals :
+  forall a b r : deepex R, W a -> W b ->
+  (d_add Rc RDC float_table a b = Ok r ->
+     W r /\ dvars r = sort_strs (dvars a ++ dvars b) /\ forall rho, ddenR rho r = (ddenR rho a + ddenR rho b)%R) /\
+  (d_sub Rc float_table a b = Ok r ->
+     W r /\ dvars r = sort_strs (dvars a ++ dvars b) /\ forall rho, ddenR rho r = (ddenR rho a - ddenR rho b)%R) /\
+  (d_mul Rc RDC float_table a b = Ok r ->
+     W r /\ dvars r = sort_strs (dvars a ++ dvars b) /\ forall rho, ddenR rho r = (ddenR rho a * ddenR rho b)%R) /\
+  (d_div Rc RDC float_table a b = Ok r ->
+     W r /\ dvars r = sort_strs (dvars a ++ dvars b) /\ forall rho, ddenR rho r = (ddenR rho a / ddenR rho b)%R) /\
+  (d_pow Rc RDC float_table a b = Ok r ->
+     W r /\ dvars r = sort_strs (dvars a ++ dvars b) /\
+     ((forall rho, ddenR rho r = powR (ddenR rho a) (ddenR rho b)) \/
+      ((forall rho, ddenR rho a = 0%R) /\ (forall rho, ddenR rho r = 0%R)))).
+Proof.
+  intros a b r Wa Wb.
+  split; [intros H; exact (d_add_sem a b r Wa Wb H)|]. split; [intros H; exact (d_sub_sem a b r Wa Wb H)|].
+  split; [intros H; exact (d_mul_sem a b r Wa Wb H)|]. split; [intros H; exact (d_div_sem a b r Wa Wb H)|].
+  intros H; exact (d_pow_sem a b r Wa Wb H).
+Qed.
+(* DeepEx::is_num answers true only for a literal level with that value (the shortcut tests), on every data type *)
+Theorem C10_is_num_is_sound_on_normal_forms :
+  forall (D : Type) (C : carrier D) (DC : dcarrier D) (e : deepex D) (num : D), nf e -> is_num C DC e num = true ->
+  exists d bops uop vars, e = DE [DNum d] bops uop vars /\ dc_eqb DC (apply_un C uop d) num = true.
+Proof. exact @is_num_shape. Qed.
+
 Print Assumptions C10_deep_binary_application_is_a_homomorphism.
 Print Assumptions C10_deep_unary_application_is_a_homomorphism.
 Print Assumptions C10_flat_binary_application_is_a_homomorphism.
 Print Assumptions C10_flat_unary_application_is_a_homomorphism.
 Print Assumptions C10_unknown_binary_name_is_error_partial.
+Print Assumptions C10_shortcuts_are_sound_over_the_reals.
+Print Assumptions C10_is_num_is_sound_on_normal_forms.
